@@ -412,8 +412,8 @@ fn c14_o3_maintenance_timers() {
 }
 
 //@ ob: C14.O2
-//@ tier: thorough
-//@ cap: 2400
+//@ tier: off
+//@ cap: 3000
 //@ standins: tracing lru vcoll
 //@ desc: one ping round: check_nodes_to_ping_and_remove_stale_nodes removes exactly the entries not heard from for more than 900 s and returns exactly the addresses of the kept entries not heard from for more than 10 s (so a peer that answered less than 15 minutes ago survives every round and a silent one is gone at the first round after 15 minutes)
 //@ bounds: main table with 3 entries of symbolic ages (<= 2000 s each) in one bucket, optionally preceded by an emptied nearer bucket (as remove() leaves), signed-peers table empty; unwind 26, RoutingTableIterator::next 163
